@@ -15,7 +15,10 @@ def build(desc):
 
     nv = desc["nv"]
     vcls = desc.get("vcls")
-    vs = [C.make_vertex(i, None if not vcls else C.VERTEX_CLASSES[vcls[i % len(vcls)] % 4]) for i in range(nv)]
+    if desc.get("eq"):
+        vs = [C.EqVertex(attributes={"i": i}) for i in range(nv)]
+    else:
+        vs = [C.make_vertex(i, None if not vcls else C.VERTEX_CLASSES[vcls[i % len(vcls)] % 4]) for i in range(nv)]
     ls = [C.LINK_CLASSES[c % 6](vs[a % nv], vs[b % nv]) for c, a, b in desc["edges"]]
     for l, end, j in desc.get("reassign", ()):
         if ls:
@@ -46,18 +49,32 @@ def make_filter(spec):
     return lambda l, o=0: (mask >> ((l * 3 + o) % 16)) & 1 == 1
 
 
-def real_filter2(f, vi, li):
+def real_filter2(f, vi, li, falsy=False):
     """filterfunc(edge, vertex) for neighbors()/ff_via from an int filter."""
     if f is None:
         return None
-    return lambda e, v: f(li[id(e)], vi[id(v)])
+    fn = lambda e, v: f(li[id(e)], vi[id(v)])
+    if falsy:
+        from eglib import classes as C
+
+        return C.FalsyFilter(fn)
+    return fn
 
 
-def real_filter1(f, li):
+def real_filter1(f, li, falsy=False):
     """filterfunc(edge) for find_links()."""
     if f is None:
         return None
-    return lambda e: f(li[id(e)])
+    fn = lambda e: f(li[id(e)])
+    if falsy:
+        from eglib import classes as C
+
+        return C.FalsyFilter(fn)
+    return fn
+
+
+def is_falsy(spec):
+    return bool(spec and spec.get("falsy"))
 
 
 _masks = st.one_of(
@@ -72,10 +89,25 @@ filter_specs = st.one_of(
     st.builds(lambda ft, m: {"ft": ft, "mask": m}, st.sampled_from(["pair", "edge"]), _masks),
 )
 
+# neighbors()/find_links() filterfunc only: the filter may be a callable OBJECT that is falsy
+filter_specs_objs = st.one_of(
+    st.none(),
+    st.builds(lambda ft, m, fz: {"ft": ft, "mask": m, "falsy": fz}, st.sampled_from(["pair", "edge"]), _masks, st.booleans()),
+)
+
 edge_filter_specs = st.one_of(
     st.none(),
-    st.builds(lambda m: {"ft": "edge", "mask": m}, _masks),
+    st.builds(lambda m, fz: {"ft": "edge", "mask": m, "falsy": fz}, _masks, st.booleans()),
 )
+
+
+def eq_graph_descs(max_v=5, max_e=8):
+    """Graphs over value-equal vertices, built by constructors only."""
+    return st.builds(
+        lambda nv, edges: {"nv": nv, "vcls": None, "eq": True, "edges": [[c, a % nv, b % nv] for c, a, b in edges], "reassign": []},
+        st.integers(2, max_v),
+        st.lists(st.tuples(st.integers(0, 5), st.integers(0, max_v - 1), st.integers(0, max_v - 1)), min_size=1, max_size=max_e),
+    )
 
 
 def graph_descs(max_v=8, max_e=14, classes=6, vcls=True, max_reassign=3, min_v=1, min_e=0):
